@@ -48,6 +48,9 @@ pub struct FaultPlan {
     pub dens: Vec<(usize, Option<u64>, DensKind)>,
     /// (chain, operation)
     pub storage: Vec<(usize, StorageOp)>,
+    /// not a fault: writing a row takes time (a scheduling point inside `record_sample`, i.e.
+    /// while the chain holds its trace lock)
+    pub slow_store: bool,
 }
 
 impl FaultPlan {
@@ -468,6 +471,9 @@ impl ChainStorage for RecChain {
     ) -> Result<()> {
         let n = self.n_records;
         self.n_records += 1;
+        if self.plan.slow_store && !OUTSIDE_SHUTTLE.with(|c| c.get()) {
+            shuttle::thread::yield_now();
+        }
         storage_fault(&self.plan, self.chain, StorageOp::Record(n))?;
         let row = canonical_row(&stats, &draws, info);
         self.rows.push(row.clone());
